@@ -7,6 +7,6 @@ def knobs(r, i):
 
 
 def run(v, tier, seed, replay):
-    seqcheck.run(v, tier, seed, replay, "C10", ["C10"], tree_oracles=["no_panic", "contexts", "tree"], knobs=knobs,
+    seqcheck.run(v, tier, seed, replay, "C10", ["C10"], tree_oracles=["no_panic", "contexts", "tree", "attachments"], knobs=knobs,
                  n_quick=(700, 150), n_thorough=(80000, 10000),
                  nontrivial=lambda lines, tr: sum(1 for l in lines if l.endswith("ctxLocal")) >= 2)
